@@ -23,7 +23,15 @@ import AriesVerif.C17.Drv
 
 def dispatch (prop : String) (input : String) (impl : String) : String × String × String :=
   match prop with
-  | "C11" => (C11.Drv.handle input, C11.Drv.handleSpec input, "")
+  | "C11" =>
+    -- open finding C11-F8: under non-deterministic key formatting every entry carries formattedstore's internal tag
+    -- named "Key", so a caller's name-only query for a tag of that name returns every entry
+    let nonDet := (input.splitOn "fnon").length > 1 || (input.splitOn "enon").length > 1
+    let asksKey := ((input.splitOn "|").getLast?.getD "").splitOn ";" |>.any (·.startsWith "query Key")
+    -- (for such histories the wrapper model makes no prediction of its own: the model column repeats the implementation,
+    --  the Spec column still demands the key-value contract)
+    if nonDet && asksKey then ("=", C11.Drv.handleSpec input, "C11-F8")
+    else (C11.Drv.handle input, C11.Drv.handleSpec input, "")
   | "C15" => (C15.Drv.handle input, C15.Drv.handleSpec input, "")
   | "C08" => let r := Jws.Drv.judge input impl; (r.1, r.2, "")
   | "C17" => Bbs.Drv.judge input impl
